@@ -262,6 +262,26 @@ func c05FieldType(tagKey string, f c05Field) (reflect.Type, error) {
 			return nil, err
 		}
 		t = st
+	case "deep": // f.Kind names the container shape around T = struct(f.Sub)
+		st, err := c05StructType(tagKey, f.Sub, false)
+		if err != nil {
+			return nil, err
+		}
+		str := reflect.TypeOf("")
+		switch f.Kind {
+		case "ss":
+			t = reflect.SliceOf(reflect.SliceOf(st))
+		case "sm":
+			t = reflect.SliceOf(reflect.MapOf(str, st))
+		case "ms":
+			t = reflect.MapOf(str, reflect.SliceOf(st))
+		case "ssm":
+			t = reflect.SliceOf(reflect.SliceOf(reflect.MapOf(str, st)))
+		case "sp0":
+			t = reflect.SliceOf(reflect.PtrTo(st))
+		case "sx":
+			t = reflect.SliceOf(st)
+		}
 	}
 	if t == nil {
 		return nil, fmt.Errorf("unknown field shape/kind %q/%q", f.Shape, f.Kind)
@@ -347,6 +367,95 @@ func anyScalar(text, class string) any {
 	return jsonNumber(text)
 }
 
+// deepWrap puts the one T object of a "deep" field into its containers (JSON flow syntax, which is
+// also valid YAML flow syntax when written with ": " and ", ").
+func deepWrap(shape, obj string) string {
+	switch shape {
+	case "ss":
+		return "[[" + obj + "]]"
+	case "sm":
+		return `[{"kx": ` + obj + `}]`
+	case "ms":
+		return `{"kx": [` + obj + `]}`
+	case "ssm":
+		return `[[{"kx": ` + obj + `}]]`
+	case "sp0":
+		return "[null, " + obj + "]"
+	case "sx":
+		return "[5, " + obj + "]"
+	}
+	return obj
+}
+
+func deepWrapAny(shape string, obj any) any {
+	switch shape {
+	case "ss":
+		return []any{[]any{obj}}
+	case "sm":
+		return []any{map[string]any{"kx": obj}}
+	case "ms":
+		return map[string]any{"kx": []any{obj}}
+	case "ssm":
+		return []any{[]any{map[string]any{"kx": obj}}}
+	case "sp0":
+		return []any{nil, obj}
+	case "sx":
+		return []any{jsonNumber("5"), obj}
+	}
+	return obj
+}
+
+// deepElem navigates from the container value to its one T element ("" = reached).
+func deepElem(shape string, v reflect.Value) (reflect.Value, string) {
+	idx := func(v reflect.Value, n, i int) (reflect.Value, string) {
+		if v.Kind() != reflect.Slice || v.Len() != n {
+			return v, fmt.Sprintf("a slice of %d element(s), got %s", n, render(v))
+		}
+		return v.Index(i), ""
+	}
+	key := func(v reflect.Value) (reflect.Value, string) {
+		if v.Kind() != reflect.Map || v.Len() != 1 || !v.MapIndex(reflect.ValueOf("kx")).IsValid() {
+			return v, "a map with the one key kx, got " + render(v)
+		}
+		return v.MapIndex(reflect.ValueOf("kx")), ""
+	}
+	var bad string
+	switch shape {
+	case "ss":
+		if v, bad = idx(v, 1, 0); bad == "" {
+			v, bad = idx(v, 1, 0)
+		}
+	case "sm":
+		if v, bad = idx(v, 1, 0); bad == "" {
+			v, bad = key(v)
+		}
+	case "ms":
+		if v, bad = key(v); bad == "" {
+			v, bad = idx(v, 1, 0)
+		}
+	case "ssm":
+		if v, bad = idx(v, 1, 0); bad == "" {
+			if v, bad = idx(v, 1, 0); bad == "" {
+				v, bad = key(v)
+			}
+		}
+	case "sp0":
+		var first reflect.Value
+		if first, bad = idx(v, 2, 0); bad == "" {
+			if !first.IsNil() {
+				return v, "a nil pointer for the null element, got " + render(first)
+			}
+			if v, bad = idx(v, 2, 1); bad == "" {
+				if v.IsNil() {
+					return v, "a filled second element, got nil"
+				}
+				v = v.Elem()
+			}
+		}
+	}
+	return v, bad
+}
+
 func renderJSON(fs []c05Field, sp string) string {
 	var parts []string
 	for _, f := range fs {
@@ -357,6 +466,10 @@ func renderJSON(fs []c05Field, sp string) string {
 			continue
 		}
 		key := strconv.Quote(spell(f.Name, sp))
+		if f.Shape == "deep" {
+			parts = append(parts, key+":"+deepWrap(f.Kind, renderJSON(f.Sub, sp)))
+			continue
+		}
 		switch f.Doc.D {
 		case "absent":
 		case "lit":
@@ -388,6 +501,11 @@ func renderYAML(fs []c05Field, indent string) string {
 			continue
 		}
 		key := indent + f.Name.Exact + ":"
+		if f.Shape == "deep" { // flow style: {"k": v, ...}
+			obj := strings.NewReplacer(`":`, `": `, `,"`, `, "`).Replace(renderJSON(f.Sub, "exact"))
+			b.WriteString(key + " " + deepWrap(f.Kind, obj) + "\n")
+			continue
+		}
 		switch f.Doc.D {
 		case "absent":
 		case "lit":
@@ -429,6 +547,10 @@ func renderMap(fs []c05Field) map[string]any {
 			for k, v := range renderMap(f.Sub) {
 				m[k] = v
 			}
+			continue
+		}
+		if f.Shape == "deep" {
+			m[f.Name.Exact] = deepWrapAny(f.Kind, renderMap(f.Sub))
 			continue
 		}
 		switch f.Doc.D {
@@ -646,6 +768,13 @@ func matchVal(v reflect.Value, want c05Val, f c05Field) (bool, string) {
 		}
 		return false, "a container"
 	case "sub":
+		if f.Shape == "deep" {
+			e, bad := deepElem(f.Kind, v)
+			if bad != "" {
+				return false, "field " + f.Name.Exact + ": " + bad
+			}
+			v = e
+		}
 		if v.Kind() != reflect.Struct {
 			return false, "a struct"
 		}
@@ -701,6 +830,8 @@ func kindName(f c05Field) string {
 		return "map[string]" + f.Kind
 	case "struct":
 		return "struct"
+	case "deep":
+		return map[string]string{"ss": "[][]T", "sm": "[]map[string]T", "ms": "map[string][]T", "ssm": "[][]map[string]T", "sp0": "[]*T", "sx": "[]T"}[f.Kind]
 	}
 	return f.Kind
 }
@@ -813,6 +944,9 @@ func describeAs(tk0 string, fs []c05Field) string {
 		if f.Shape == "struct" {
 			s = ptrMark(f) + "struct{" + describeAs(tk0, f.Sub) + "}"
 		}
+		if f.Shape == "deep" {
+			s = kindName(f) + " with T = struct{" + describeAs(tk0, f.Sub) + "}"
+		}
 		tk := tk0
 		if f.Part != "" {
 			tk = f.Part
@@ -903,6 +1037,10 @@ func (rn *c05Runner) runTyped(c *c05Case) (bads []*c05Bad, results []c05Result, 
 	}
 	for i := 1; i < len(confRes); i++ {
 		a, b := confRes[0], confRes[i]
+		if a.class() == "val" && b.class() == "err" {
+			bads = append(bads, &c05Bad{"C05:spelling-rejected", fmt.Sprintf("conf.LoadFromJsonBytes into %s accepts the exact keys %s but fails for the respelt keys %s: %v",
+				describe(c.Fields), js, renderJSON(c.Fields, []string{"exact", "snake", "initial"}[i]), b.Err)})
+		}
 		if a.class() == "val" && b.class() == "val" && !sameStruct(a, b) {
 			bads = append(bads, &c05Bad{"C05:spelling-differ", fmt.Sprintf("conf.LoadFromJsonBytes into %s: exact keys give %s, respelt keys (%s) give %s",
 				describe(c.Fields), render(a.Val.Elem()), renderJSON(c.Fields, []string{"exact", "snake", "initial"}[i]), render(b.Val.Elem()))})
@@ -1379,7 +1517,7 @@ func (rn *c05Runner) runCase(kc kit.Case) kit.Verdict {
 	var results []c05Result
 	var n int
 	switch {
-	case c.Family == "roundtrip":
+	case c.Family == "roundtrip" || c.Family == "rtopt":
 		bads, results, n = rn.runRoundTrip(&c)
 	case c.Family == "twice":
 		bads, results, n = rn.runTwice(&c)
@@ -1402,7 +1540,7 @@ func (rn *c05Runner) runCase(kc kit.Case) kit.Verdict {
 	s := sig(results)
 	if rn.passNo == 0 {
 		rn.first[kc.Index] = s
-	} else if prev, ok := rn.first[kc.Index]; ok && prev != s && c.Family != "roundtrip" {
+	} else if prev, ok := rn.first[kc.Index]; ok && prev != s && c.Family != "roundtrip" && c.Family != "rtopt" {
 		bads = append(bads, &c05Bad{"C05:order-dependent", fmt.Sprintf("into %s: first pass %s, second pass (other order) %s", describe(c.Fields), prev, s)})
 	}
 	if len(bads) > 0 {
@@ -1481,7 +1619,7 @@ func TestVerifC05(t *testing.T) {
 
 	rng := rand.New(rand.NewSource(kit.Seed()*7919 + int64(shard)))
 	passes := 2
-	if len(mine) > 0 && kit.Str(mine[0].Steps[0]["family"]) == "roundtrip" {
+	if len(mine) > 0 && (kit.Str(mine[0].Steps[0]["family"]) == "roundtrip" || kit.Str(mine[0].Steps[0]["family"]) == "rtopt") {
 		passes = 1
 	}
 	bad := map[int]bool{}
